@@ -10,6 +10,7 @@
 //!            "refuse":{"logs":n}                                      endpoint refuses connections
 //!                                                                     until n connects failed
 //!            "pad":"rep"|"rnd"                                        attribute content: repeated / pseudo-random
+//!            "short_flush_ms":n                                       before the final flush, one with this timeout
 //!            "flush_after":[k..]                                      also flush after the k-th event
 //!            "predict":{"logs":[{"ids":[k..],"dec":class}]}}          level-B prediction (soft)
 //!
@@ -118,7 +119,7 @@ fn run_scenario(coll: &Collector, s: &Value, flush_timeout: Duration) -> Outcome
             let ok = catch(|| otlp.blocking_flush(flush_timeout)).unwrap_or(false);
             let m = sample(&src);
             let clientfails: u64 = m.iter().filter(|(k, _)| k.ends_with("_queue_batch_failed")).map(|(_, v)| *v).sum();
-            sc.log.push(json!({"ev": "Flush", "ok": ok, "clientfails": clientfails}));
+            sc.log.push(json!({"ev": "Flush", "ok": ok, "clientfails": clientfails, "short": false}));
             n_flushes += 1;
         }
     }
@@ -135,6 +136,15 @@ fn run_scenario(coll: &Collector, s: &Value, flush_timeout: Duration) -> Outcome
             }
         }
     }
+    // a flush whose timeout is far shorter than the time a scripted outage lasts: it may return
+    // false; returning true is only right when everything emitted so far was acknowledged
+    if let Some(ms) = s["short_flush_ms"].as_u64() {
+        let ok = catch(|| otlp.blocking_flush(Duration::from_millis(ms))).unwrap_or(false);
+        let m = sample(&src);
+        let clientfails: u64 = m.iter().filter(|(k, _)| k.ends_with("_queue_batch_failed")).map(|(_, v)| *v).sum();
+        sc.log.push(json!({"ev": "Flush", "ok": ok, "clientfails": clientfails, "short": true}));
+        n_flushes += 1;
+    }
     let ok = match catch(|| otlp.blocking_flush(flush_timeout)) {
         Ok(ok) => ok,
         Err(p) => {
@@ -144,7 +154,7 @@ fn run_scenario(coll: &Collector, s: &Value, flush_timeout: Duration) -> Outcome
     };
     let m = sample(&src);
     let clientfails: u64 = m.iter().filter(|(k, _)| k.ends_with("_queue_batch_failed")).map(|(_, v)| *v).sum();
-    sc.log.push(json!({"ev": "Flush", "ok": ok, "clientfails": clientfails}));
+    sc.log.push(json!({"ev": "Flush", "ok": ok, "clientfails": clientfails, "short": false}));
     let wall = t0.elapsed().as_millis() as u64;
     // everything up to and including the Flush record
     let snap = sc.log.snapshot();
